@@ -21,7 +21,8 @@ A *script* is a list of ops (all times in ticks of 62.5 ms):
     ["cb", x, "echo"]          install a setter_callback on characteristic #x that confirms the written value
     ["cb", x, "set_to", v2]      ... that clamps / normalises: char.set_value(v2)
     ["cb", x, "set_other", y, w] ... that updates another characteristic: chars[y].set_value(w)
-                               (configuration: placed before the first request; raising callbacks are not in the alphabet)
+    ["cb", x, "raise"]           ... that raises (the device could not be reached): the write is answered -70402
+                               (configuration: placed before the first request)
     ["app_set", x, v]          char.set_value(v) by the application (on the loop thread)
     ["app_set_thread", x, v]   char.set_value(v) in a real worker thread (driver.tid is the loop thread,
                                so AccessoryDriver.publish defers through loop.call_soon_threadsafe);
@@ -421,6 +422,11 @@ class World:
                 ch_.setter_callback = lambda value, c=ch_, v2=op[3]: c.set_value(v2)
             elif op[2] == "set_other":
                 ch_.setter_callback = lambda value, c=self.chars[op[3]], w=op[4]: c.set_value(w)
+            elif op[2] == "raise":
+                def failing(value):
+                    raise RuntimeError("device unreachable")
+
+                ch_.setter_callback = failing
             else:
                 raise ValueError("unknown callback kind %r" % (op,))
         elif k == "app_set":
